@@ -1,7 +1,14 @@
 package main
 
 import (
+	"crypto/ecdsa"
+	"crypto/elliptic"
+	"crypto/rand"
+	"crypto/tls"
+	"crypto/x509"
+	"crypto/x509/pkix"
 	"fmt"
+	"math/big"
 	"net"
 	"strings"
 	"sync"
@@ -59,22 +66,169 @@ type acceptPermErr struct{}
 
 func (acceptPermErr) Error() string { return "accept: listener failed" }
 
+// a self-signed certificate for the TLS variant of the accept script (made once per process)
+var acceptTLS = sync.OnceValue(func() *tls.Config {
+	key, err := ecdsa.GenerateKey(elliptic.P256(), rand.Reader)
+	if err != nil {
+		return nil
+	}
+	tmpl := &x509.Certificate{SerialNumber: big.NewInt(1), Subject: pkix.Name{CommonName: "verif"},
+		NotBefore: time.Now().Add(-time.Hour), NotAfter: time.Now().Add(24 * time.Hour),
+		KeyUsage: x509.KeyUsageDigitalSignature, ExtKeyUsage: []x509.ExtKeyUsage{x509.ExtKeyUsageServerAuth}, DNSNames: []string{"verif"}}
+	der, err := x509.CreateCertificate(rand.Reader, tmpl, tmpl, &key.PublicKey, key)
+	if err != nil {
+		return nil
+	}
+	return &tls.Config{Certificates: []tls.Certificate{{Certificate: [][]byte{der}, PrivateKey: key}}}
+})
+
 type countHandler struct {
-	mu    sync.Mutex
-	count map[string]int
+	mu      sync.Mutex
+	ids     map[uint32]bool
+	count   map[string]int
+	release chan struct{} // a message with hop-by-hop id 777777 keeps its handler inside until this is closed
+	held    chan struct{}
 }
 
 func (h *countHandler) ServeDIAM(c diam.Conn, m *diam.Message) {
+	if m.Header.HopByHopID == 777777 && h.release != nil {
+		close(h.held)
+		<-h.release
+		return
+	}
 	h.mu.Lock()
 	h.count[c.RemoteAddr().String()]++
+	if h.ids != nil {
+		h.ids[m.Header.HopByHopID] = true
+	}
 	h.mu.Unlock()
 }
+func (h *countHandler) saw(id uint32) bool { h.mu.Lock(); defer h.mu.Unlock(); return h.ids[id] }
 func (h *countHandler) get(k string) int { h.mu.Lock(); defer h.mu.Unlock(); return h.count[k] }
+
+// conn accept ... tls=1: the listener is a TLS listener (the handshake is the connection's own
+// business, not the accept loop's): A is a client that completes the handshake and sends a
+// request, S a peer that connects and then says nothing at all.
+func execConnAcceptTLS(evS string) string {
+	cfg := acceptTLS()
+	if cfg == nil {
+		return "err"
+	}
+	l := &scriptListener{ch: make(chan acceptRes)}
+	h := &countHandler{count: map[string]int{}, ids: map[uint32]bool{}}
+	srv := &diam.Server{Handler: h, Dict: dict.Default}
+	done := make(chan error, 1)
+	go func() { done <- srv.Serve(tls.NewListener(l, cfg)) }()
+	returned := false
+	waitParked := func(want int, limit time.Duration) bool {
+		deadline := time.Now().Add(limit)
+		for time.Now().Before(deadline) {
+			if l.ncalls() >= want {
+				return true
+			}
+			select {
+			case <-done:
+				returned = true
+				return false
+			default:
+			}
+			time.Sleep(200 * time.Microsecond)
+		}
+		return false
+	}
+	waitParked(1, time.Second)
+	var clients []*tls.Conn
+	var pipes []net.Conn
+	probe := func(tc *tls.Conn, id uint32) bool {
+		tc.SetWriteDeadline(time.Now().Add(500 * time.Millisecond))
+		if _, err := tc.Write(simpleMsg(280, 0x80, 0, id, id)); err != nil {
+			return false
+		}
+		return waitFor(func() bool { return h.saw(id) }, 500*time.Millisecond)
+	}
+	var outs []string
+	id := uint32(0)
+	for _, e := range strings.Split(evS, ",") {
+		if e != "A" && e != "S" {
+			continue
+		}
+		if returned {
+			outs = append(outs, "skip")
+			continue
+		}
+		sc, cc := net.Pipe()
+		pipes = append(pipes, sc, cc)
+		nc := l.ncalls()
+		select {
+		case l.ch <- acceptRes{c: sc}:
+		case <-time.After(1500 * time.Millisecond):
+			outs = append(outs, e+":not-accepting")
+			continue
+		}
+		served := 0
+		var tc *tls.Conn
+		if e == "A" {
+			tc = tls.Client(cc, &tls.Config{InsecureSkipVerify: true})
+			cc.SetDeadline(time.Now().Add(2 * time.Second))
+			if err := tc.Handshake(); err == nil {
+				cc.SetDeadline(time.Time{})
+				clients = append(clients, tc)
+				id++
+				if probe(tc, id) {
+					served = 1
+				}
+			}
+		}
+		again := waitParked(nc+1, 1500*time.Millisecond)
+		st := "run"
+		if returned {
+			st = "stopped"
+		} else if !again {
+			st = "stuck"
+		}
+		if e == "A" {
+			outs = append(outs, fmt.Sprintf("A:served=%d,%s", served, st))
+		} else {
+			outs = append(outs, "S:"+st)
+		}
+	}
+	alive := 0
+	for _, tc := range clients {
+		id++
+		if probe(tc, id) {
+			alive++
+		}
+	}
+	outs = append(outs, fmt.Sprintf("alive=%d/%d", alive, len(clients)))
+	for _, p := range pipes {
+		p.Close()
+	}
+	if !returned {
+		select {
+		case l.ch <- acceptRes{err: acceptPermErr{}}:
+		case <-time.After(time.Second):
+		}
+	}
+	return strings.Join(outs, " ; ")
+}
 
 func execConnAccept(toks []string) string {
 	evS, _ := kvGet(toks, "ev")
+	if t, _ := kvGet(toks, "tls"); t == "1" {
+		return execConnAcceptTLS(evS)
+	}
 	l := &scriptListener{ch: make(chan acceptRes)}
 	h := &countHandler{count: map[string]int{}}
+	// hold=1: from the first accepted connection on, a handler of that connection stays blocked
+	// for the rest of the script (released before the final probe); X: the most recently accepted
+	// other connection is closed by its peer. Neither concerns the listener or the other connections.
+	holdS, _ := kvGet(toks, "hold")
+	if holdS == "1" {
+		h.release = make(chan struct{})
+		h.held = make(chan struct{})
+	}
+	holding := false
+	var heldConn *memConn
 	srv := &diam.Server{Handler: h, Dict: dict.Default}
 	done := make(chan error, 1)
 	go func() { done <- srv.Serve(l) }()
@@ -113,6 +267,19 @@ func execConnAccept(toks []string) string {
 		}
 		var res acceptRes
 		var mc *memConn
+		if e == "X" {
+			done := "none"
+			for i := len(conns) - 1; i >= 0; i-- {
+				if conns[i] != heldConn && !conns[i].isDone() {
+					conns[i].peerEOF()
+					waitFor(conns[i].isClosed, 300*time.Millisecond)
+					done = "done"
+					break
+				}
+			}
+			outs = append(outs, "X:"+done)
+			continue
+		}
 		switch e {
 		case "A":
 			mc = newMemConn()
@@ -154,6 +321,15 @@ func execConnAccept(toks []string) string {
 				served = 1
 			}
 			outs = append(outs, fmt.Sprintf("A:served=%d,%s", served, st))
+			if holdS == "1" && !holding && served == 1 {
+				holding = true
+				heldConn = mc
+				mc.deliver(simpleMsg(280, 0x80, 0, 777777, 777777))
+				select {
+				case <-h.held:
+				case <-time.After(time.Second):
+				}
+			}
 		case "P":
 			l.mu.Lock()
 			cl := l.closed
@@ -164,14 +340,22 @@ func execConnAccept(toks []string) string {
 		}
 	}
 	// every connection accepted so far is still served, whatever happened to the listener
-	alive := 0
+	if h.release != nil {
+		close(h.release)
+		time.Sleep(time.Millisecond)
+	}
+	alive, total := 0, 0
 	for _, mc := range conns {
+		if mc.isDone() { // closed by its peer (X)
+			continue
+		}
+		total++
 		id++
 		if probe(mc, id) {
 			alive++
 		}
 	}
-	outs = append(outs, fmt.Sprintf("alive=%d/%d", alive, len(conns)))
+	outs = append(outs, fmt.Sprintf("alive=%d/%d", alive, total))
 	for _, mc := range conns {
 		mc.Close()
 	}
@@ -208,7 +392,23 @@ func genConnAccept(r *RNG, n int, op string, emit func(string)) {
 		if i%37 == 5 { // a long run of temporary errors: the back-off reaches its cap
 			evs = append([]string{"A"}, strings.Split(strings.Repeat("T,", 9)+"A", ",")...)
 		}
-		emit("conn accept ev=" + strings.Join(evs, ","))
+		line := "conn accept ev=" + strings.Join(evs, ",")
+		if r.Chance(40) { // with a handler blocked on the first connection, and peers leaving
+			for k := range evs {
+				if k > 0 && r.Chance(20) {
+					evs[k] = "X"
+				}
+			}
+			line = "conn accept ev=" + strings.Join(evs, ",") + " hold=1"
+		}
+		emit(line)
+		if i%6 == 1 { // a TLS listener with peers that never start their handshake
+			var te []string
+			for k, m := 0, 2+r.Intn(5); k < m; k++ {
+				te = append(te, []string{"A", "A", "S"}[r.Intn(3)])
+			}
+			emit("conn accept ev=" + strings.Join(te, ",") + " tls=1")
+		}
 	}
 }
 
